@@ -61,8 +61,18 @@ func TestVerifC35(t *testing.T) {
 				cl.F.Torn = rate / 3
 			}
 			attempts := map[string]int{}
+			// per file: was a clean-up Remove attempted after the last torn write?
+			tornPending := map[string]bool{}
 			store.OnArrive = append(store.OnArrive, func(c *simbe.Client, op string, h backend.Handle) {
 				attempts[op+" "+h.Name]++
+				if op == "Remove" {
+					tornPending[h.Name] = false
+				}
+			})
+			store.OnMutation = append(store.OnMutation, func(m simbe.Mutation, _ []byte) {
+				if m.Op == "torn" {
+					tornPending[m.H.Name] = true
+				}
 			})
 			be := New(cl, 15*time.Minute, nil, nil)
 			ctx := context.Background()
@@ -101,12 +111,12 @@ func TestVerifC35(t *testing.T) {
 					case "save":
 						data := make([]byte, []int{0, 1, 500, 20000}[i%4])
 						st.Fill(data)
-						rmFaults0 := s.Stats()["fault:remove-err-before"]
 						err := be.Save(ctx, o.h, backend.NewByteReader(data, cl.Hasher()))
 						got := store.Get(o.h)
-						// the clean-up of a torn file is itself a backend operation: if that Remove was made
-						// to fail as well, nothing can take the partial file away again
-						cleanupSabotaged := s.Stats()["fault:remove-err-before"] > rmFaults0
+						// the clean-up of a torn file is itself a backend operation: if a Remove was attempted
+						// after the last torn write and was made to fail as well, nothing can take the partial
+						// file away again; if no Remove was even attempted, the partial file is restic's doing
+						cleanupSabotaged := !tornPending[o.h.Name]
 						if err == nil {
 							if got == nil || !bytes.Equal(got, data) {
 								r.Fail("save", "save-ok-but-wrong", "op %d: Save returned nil but the stored file is %d bytes, want the %d bytes saved", i, len(got), len(data))
